@@ -36,11 +36,11 @@ def gen(chk, tier):
     special = [0, 1, 2, N - 1, N, N + 1, T256 - 1, 1 << 255, (1 << 255) - 1, P, 15, 16, 17, 1 << 252]
     # fixed-base: the scheme in use through the public entry point, and all four schemes
     for scheme in (-1, 0, 1, 2, 3):
-        ks = list(special) + [rng.getrandbits(256) for _ in range(8 if q else 300)]
+        ks = list(special) + [rng.getrandbits(256) for _ in range(8 if q else 1500)]
         ks += window_scalars(rng, 2 if scheme < 0 else scheme, tier)
         # scalars in [n, 2^256): any reduction of the scalar happens only there (2^-32 of all scalars)
         nb = b32(N)
-        for _ in range(12 if q else 200):
+        for _ in range(12 if q else 800):
             v = rng.randrange(N, T256)
             ks.append(v)
             vb = list(v.to_bytes(32, "big"))          # agree with n on some bytes, to provoke borrow chains
@@ -49,7 +49,7 @@ def gen(chk, tier):
             v2 = int.from_bytes(bytes(vb), "big")
             if v2 >= N:
                 ks.append(v2)
-        ks += limb_structured(rng, 8 if q else 200)          # limbs with zero halves, single bits, ...
+        ks += limb_structured(rng, 8 if q else 800)          # limbs with zero halves, single bits, ...
         for k in ks:
             g.one("base_scheme_%s" % ("public" if scheme < 0 else "_".join(map(str, SCHEMES[scheme]))), "sm.base",
                   scheme=scheme, k=b32(k))
@@ -81,7 +81,7 @@ def gen(chk, tier):
     # double-scalar: G side comb x P side signed 4-NAF
     for name, pt in pts[:6]:
         pairs = [(gk, sk) for gk in special[:7] for sk in (special[:7] if not q else special[:7:3])]
-        pairs += [(rng.getrandbits(256), rng.getrandbits(256)) for _ in range(6 if q else 200)]
+        pairs += [(rng.getrandbits(256), rng.getrandbits(256)) for _ in range(6 if q else 1500)]
         if name == "random":
             for ks_ in window_scalars(rng, 2, "quick"):
                 pairs.append((ks_, rng.getrandbits(256)))
@@ -90,7 +90,7 @@ def gen(chk, tier):
                     pairs.append((rng.getrandbits(256), (v << pos) % T256))
                     pairs.append((rng.getrandbits(256), (T256 - 1) ^ ((v << pos) % T256)))
         st = limb_structured(rng, 6 if q else 100)
-        pairs += [(rng.choice(st), rng.choice(st)) for _ in range(4 if q else 80)]
+        pairs += [(rng.choice(st), rng.choice(st)) for _ in range(4 if q else 600)]
         for (gk, sk) in pairs:
             g.one("mixed_" + name, "sm.mixed", g=b32(gk), p1=proj(rng, pt, z=1), s=b32(sk))
     return g.cmds
